@@ -205,10 +205,58 @@ fn batch(g: &mut Gen, nu: i64, maxlen: usize) -> J {
     J::Array(b)
 }
 
+fn batch_op(g: &mut Gen, nu: i64) -> J {
+    let op = *g.pick(&["add", "upsert"]);
+    json!([op, batch(g, nu, 2)])
+}
+
 pub fn drive(seed: u64, n: usize) -> Vec<J> {
     let mut g = Gen::new(seed ^ 0xE57);
     (0..n)
         .map(|i| {
+            if i % 2 == 1 {
+                // a random DAG (edges from lower to higher numbers, relabelled) with most
+                // entities present, then one or two removals / replacements: the shapes where
+                // an ancestor must survive or vanish depending on the remaining paths
+                let nu: i64 = *g.pick(&[4, 5, 6, 7]);
+                let mut perm: Vec<i64> = (1..=nu).collect();
+                for k in (1..perm.len()).rev() {
+                    let j = g.rng.gen_range(0..=k);
+                    perm.swap(k, j);
+                }
+                let dens = *g.pick(&[25, 40, 60]);
+                let mut b = vec![];
+                for a in 0..nu as usize {
+                    if !g.chance(88) {
+                        continue;
+                    }
+                    let mut par = BTreeSet::new();
+                    for c in (a + 1)..nu as usize {
+                        if g.chance(dens) {
+                            par.insert(perm[c]);
+                        }
+                    }
+                    b.push(json!([perm[a], par, 0]));
+                }
+                let mut hist = vec![json!(["from", b])];
+                for _ in 0..g.rng.gen_range(1..3) {
+                    let u = g.rng.gen_range(1..=nu);
+                    match g.rng.gen_range(0..4) {
+                        0 | 1 => hist.push(json!(["remove", [u]])),
+                        2 => {
+                            let mut par = BTreeSet::new();
+                            for p in 1..=nu {
+                                if g.chance(25) {
+                                    par.insert(p);
+                                }
+                            }
+                            hist.push(json!(["upsert", [[u, par, 1]]]))
+                        }
+                        _ => hist.push(batch_op(&mut g, nu)),
+                    }
+                }
+                return json!({"id": i, "nu": nu, "hist": hist});
+            }
             let nu: i64 = *g.pick(&[3, 4, 5, 6, 8]);
             let len = g.rng.gen_range(2..10);
             let mut hist = vec![];
